@@ -1267,11 +1267,10 @@ class Obj(Opcode):
         else:
             raise ValueError("Exhausted the stack while searching for a MarkObject!")
         kls = args.pop(0)
-        # TODO Verify paths for correctness
-        if args or hasattr(kls, "__getinitargs__") or not isinstance(kls, type):
-            interpreter.stack.append(ast.Call(kls, args, []))
-        else:
-            interpreter.stack.append(ast.Call(kls, kls, []))
+        # Like REDUCE, instantiating the class runs arbitrary code, so bind the call to a
+        # variable: it must reach the final AST even if its value is popped or never used
+        var_name = interpreter.new_variable(ast.Call(kls, args, []))
+        interpreter.stack.append(ast.Name(var_name, ast.Load()))
 
 
 class ShortBinUnicode(DynamicLength, ConstantOpcode):
@@ -1339,9 +1338,11 @@ class NewObj(Opcode):
         args = interpreter.stack.pop()
         class_type = interpreter.stack.pop()
         if isinstance(args, ast.Tuple):
-            interpreter.stack.append(ast.Call(class_type, list(args.elts), []))
+            call = ast.Call(class_type, list(args.elts), [])
         else:
-            interpreter.stack.append(ast.Call(class_type, [ast.Starred(args)], []))
+            call = ast.Call(class_type, [ast.Starred(args)], [])
+        var_name = interpreter.new_variable(call)
+        interpreter.stack.append(ast.Name(var_name, ast.Load()))
 
 
 class NewObjEx(Opcode):
@@ -1352,9 +1353,11 @@ class NewObjEx(Opcode):
         args = interpreter.stack.pop()
         class_type = interpreter.stack.pop()
         if isinstance(args, ast.Tuple):
-            interpreter.stack.append(ast.Call(class_type, list(args.elts), kwargs))
+            call = ast.Call(class_type, list(args.elts), kwargs)
         else:
-            interpreter.stack.append(ast.Call(class_type, [ast.Starred(args)], kwargs))
+            call = ast.Call(class_type, [ast.Starred(args)], kwargs)
+        var_name = interpreter.new_variable(call)
+        interpreter.stack.append(ast.Name(var_name, ast.Load()))
 
 
 class BinPersId(Opcode):
@@ -1362,13 +1365,13 @@ class BinPersId(Opcode):
 
     def run(self, interpreter: Interpreter):
         pid = interpreter.stack.pop()
-        interpreter.stack.append(
-            ast.Call(
-                ast.Attribute(ast.Name("UNPICKLER", ast.Load()), "persistent_load"),
-                [pid],
-                [],
-            )
+        call = ast.Call(
+            ast.Attribute(ast.Name("UNPICKLER", ast.Load()), "persistent_load"),
+            [pid],
+            [],
         )
+        var_name = interpreter.new_variable(call)
+        interpreter.stack.append(ast.Name(var_name, ast.Load()))
 
 
 class PersId(Opcode):
